@@ -31,7 +31,7 @@ func init() {
 		Batches:     tiered(128, 1024),
 		Run:         runC13,
 		Exhaustive:  func(string) bool { return true },
-		Timeout:     timeoutFor(8*time.Minute, 45*time.Minute),
+		Timeout:     timeoutFor(3*time.Minute, 45*time.Minute),
 	})
 }
 
